@@ -66,6 +66,30 @@ ASSUME \A t1, t2 \in Tais : (t1 <= t2 /\ ~(S!InGap(t1) /\ S!InGap(t2) /\ S!StepA
 \* every TAI instant outside the gaps has exactly one UTC count, and it maps back
 ASSUME \A t \in Tais : ~S!InGap(t) => (Cardinality(S!TaiToUtcSet(t)) = 1 /\ \A u \in S!TaiToUtcSet(t) : S!UtcToTai(u) = t)
 ASSUME {t \in Tais : S!InGap(t)} = {10, 11, 12, 21, 30}
+\* Refinement: the implementation-shaped transcription of the repaired TAI -> UTC arm of to_time_scale
+\* (ascending loop over the table with the previous delta) and of the reverse lookup of
+\* leap_seconds_with return an admissible value for every instant - except in the gap of the FIRST
+\* entry, where they return t - delta (known finding F27, pinned by tests/epoch.rs::utc_tai)
+RECURSIVE ImplTaiToUtcFrom(_, _, _, _)
+ImplTaiToUtcFrom(t, i, utc, prev) ==
+  IF i > Len(LeapC) THEN utc
+  ELSE LET entry == LeapC[i][1]  delta == LeapC[i][2] IN
+         IF t < entry + prev THEN utc                                          \* break
+         ELSE ImplTaiToUtcFrom(t, i + 1, IF t >= entry + delta \/ prev = 0 THEN t - delta ELSE entry, delta)
+ImplTaiToUtc(t) == ImplTaiToUtcFrom(t, 1, t, 0)
+RECURSIVE ImplLookupFrom(_, _)
+ImplLookupFrom(c, i) == IF i = 0 THEN 0 ELSE IF c >= LeapC[i][1] THEN LeapC[i][2] ELSE ImplLookupFrom(c, i - 1)   \* provider.rev()
+ImplUtcToTai(u) == u + ImplLookupFrom(u, Len(LeapC))
+ASSUME \A u \in Utcs : ImplUtcToTai(u) = S!UtcToTai(u)
+ASSUME \A t \in Tais : IF S!InGap(t) /\ S!StepAt(t) = 1 THEN ImplTaiToUtc(t) = t - LeapC[1][2]
+                        ELSE ImplTaiToUtc(t) \in S!TaiToUtcSet(t)
+ASSUME \A u \in Utcs : ImplTaiToUtc(ImplUtcToTai(u)) = u                        \* the round trip of the code itself
+ASSUME \A t1, t2 \in Tais : (t1 <= t2 /\ ~(S!InGap(t2) /\ S!StepAt(t2) = 1)) => ImplTaiToUtc(t1) <= ImplTaiToUtc(t2) \/ (S!InGap(t1) /\ S!StepAt(t1) = 1)
+\* the algorithm as found (table looked up with the TAI count) is refuted: not a left inverse, not monotone
+ImplTaiToUtcOld(t) == t - ImplLookupFrom(t, Len(LeapC))
+ASSUME \E u \in Utcs : ImplTaiToUtcOld(ImplUtcToTai(u)) # u
+ASSUME \E t \in Tais : t + 1 \in Tais /\ ImplTaiToUtcOld(t + 1) < ImplTaiToUtcOld(t)
+
 \* C05: uniform scales: single result, exact constant offset, invertible, commutes with addition
 ASSUME \A a, b \in S!Uniform, v \in Dom :
           /\ S!ConvSet(S!Ep(a, v), b) = {v + RefC[a] - RefC[b]}
